@@ -48,36 +48,54 @@ class C09(Prop):
     thorough_n = 4000
     search_n = 300
     design_ref = "5/C09"
-    technique = ("Lean 4 proof (invariant over all finite event histories x error injections, induction on the history and on "
-                 "hook-nesting fuel) about an executable control-flow model of backend()/process_io()/error_handler(); "
-                 "source tie by regenerated constants and by running the REAL backend() under hook H1 against the model")
+    technique = ("Lean 4 proof (invariant over all finite event histories x error injections, induction on the history, on "
+                 "hook-nesting fuel and on the batch of events of one poll) about an executable control-flow model of "
+                 "backend()/process_io()/error_handler()/the object sweep; source tie by regenerated constants, regenerated "
+                 "source text of the decisive comparisons / updates / statement orders / apply-site inventory with bridging "
+                 "lemmas, and by running the REAL backend() under hook H1 (sanitizer build and plain build) against the model")
     level_text = ("PARTIAL (model level). Lean 4 theorem `backend_total` about the model `Backend` (nullable all_users, "
                   "connection records as serials, recovery points, error_handler flag protocol with the master handler ok / "
-                  "raising / raising recursively, heart-beat bookkeeping, call_out / reset sweeps, remove_interactive, "
-                  "re-validation after callbacks): for EVERY finite history of external events x EVERY task oracle x both "
-                  "modes the run never reaches a modelled NULL dereference or use of a freed connection record, and after "
-                  "every cycle in_error = in_mudlib_error_handler = false with the error-context chain at its base "
-                  "(invariant preserved by every step, induction on the history and on hook-nesting fuel); only the failing "
-                  "heart beat removed; pending tasks of others kept by the error path. The "
-                  "model is tied to the source by running the real backend() loop (loopback TCP clients, console pipe, "
-                  "virtual time, scripted failing tasks, master error_handler in three behaviours) on the same histories: "
-                  "traces must be identical; the Lean specification oracle judges every implementation trace.")
-    level_note = ("trusted: Lean kernel; extract.py; the correspondence harness (differential; only generated histories); "
-                  "memory errors inside arbitrary failing tasks, real signal delivery, the OS, epoll event ordering with "
-                  "several simultaneous events, the address-server pipe, LPC sockets, ed, snoop, exec() are not modelled "
-                  "(ASan/UBSan observe the real runs)")
-    rule = ("cases = corpus + known-finding inputs + boundary list + seeded random histories: per backend cycle one or two "
-            "I/O events on different connections (connect / 1-3 complete or partial lines, some very long / close / "
-            "console line; console and network users together) and an optional timer tick; "
+                  "raising / raising recursively, heart-beat bookkeeping, call_out sweep, reset + clean_up sweep with the "
+                  "walk restarted after an error, remove_interactive, input_to, re-validation after callbacks, batches of "
+                  "I/O events of one poll incl. stale entries and batches abandoned by a longjmp): for EVERY finite history of "
+                  "external events (any number of accept / data / end-of-file / hang-up / console / timer events per poll, in "
+                  "any order) x EVERY task oracle x both modes the run never reaches a modelled NULL dereference or use of "
+                  "a freed connection record, and after every cycle in_error = in_mudlib_error_handler = false with the "
+                  "error-context chain at its base; a stale entry of a batch is skipped and never shares an identity with a "
+                  "record accepted later (`batch_any_order_good`, `stale_event_skipped`, "
+                  "`pending_entry_older_than_any_accept`); only the failing heart beat removed; pending tasks of others "
+                  "kept by the error path; oracle clauses crash / report / cycle markers / exit proved for all histories. "
+                  "The model is tied to the source by 60 obligations (incl. 21 bridging lemmas over text regenerated from "
+                  "the C source on every run) and by running the real backend() loop (loopback TCP clients, console pipe, "
+                  "virtual time, events of one poll delivered in scripted order by the interposed poller, scripted failing "
+                  "tasks, master error_handler in three behaviours) on the same histories: traces must be identical; the "
+                  "Lean specification oracle (12 clauses) judges every implementation trace.")
+    level_note = ("trusted: Lean kernel; extract.py and the regex translator in props/c09.py; the correspondence harness "
+                  "(differential; only generated histories); the oracle clauses heartbeats / commands / callouts / leak / "
+                  "refs / unexpected-shutdown / disconnect / hb-schedule / turns are judged on every trace but not proved "
+                  "for all histories; memory errors inside arbitrary failing tasks, real signal delivery, the OS, the same "
+                  "descriptor twice in one poll, the address-server pipe, LPC sockets, ed, snoop, exec(), get_char are not "
+                  "modelled (ASan/UBSan observe the real runs; address re-use is observed on a second build without "
+                  "sanitizers)")
+    rule = ("cases = corpus + known-finding inputs + boundary list + seeded random histories: per backend cycle one I/O "
+            "event or a batch of 2-4 events delivered by ONE poll in scripted order (accept / 1-3 complete or partial "
+            "lines, some very long / end-of-file / reset (hang-up) / console line, on distinct connections, shuffled; "
+            "directed template: a third party frees a record whose own event is still pending, accept in between) and an "
+            "optional timer tick (2 s ... 1000 s, so that reset and clean_up sweeps happen); "
             "scripts inject ok / uncaught error / caught error / destruct (self, other user, other object) / call_out / "
-            "heart-beat switch / master-handler switch into logon, process_input, command, net_dead, heart_beat, call_out, "
-            "reset and connect; both modes; three master error_handler behaviours; a case is non-trivial when its trace "
-            "has >= 2 task lines; distinct = distinct canonical implementation trace")
+            "heart-beat switch / master-handler switch / input_to into logon, process_input, command, input_to callback, "
+            "net_dead, heart_beat, call_out, reset, clean_up and connect; both modes; three master error_handler "
+            "behaviours; batch cases run on the sanitizer build AND on a plain build; a case is non-trivial when its "
+            "trace has >= 2 task lines; distinct = distinct canonical implementation trace")
     not_covered = ["memory errors inside the failing task itself (C01) - only observed by ASan/UBSan on the generated runs",
                    "real signal delivery, the real 2 s timer thread (ticks are injected exactly as its callback does)",
-                   "several I/O events reported by one epoll_wait (ordering is the kernel's)",
-                   "address-server pipe, LPC sockets, ed, snoop, exec(), input_to/get_char, clean_up (CleanupDuration 0)",
-                   "console on a real tty (reconnect path); the harness console is a pipe, where removal means shutdown"]
+                   "the same descriptor reported twice in one poll (data and end-of-file together), a console line behind "
+                   "a failing accept in one poll (the doorbell is not rung again), write-ready events",
+                   "address-server pipe, LPC sockets, ed, snoop, exec(), get_char, the `!` escape, write_prompt apply, "
+                   "input_to armed from net_dead / call_out / heart_beat (inherited command_giver)",
+                   "an object destructed by its own reset() when its clean_up is due (the C code applies clean_up to it)",
+                   "console on a real tty (reconnect path); the harness console is a pipe, where removal means shutdown",
+                   "oracle clauses other than crash / report / cycle markers / exit are judged per trace, not proved for all histories"]
 
     # ---- tie: constants that are literals in the source ---------------------
     def gen_extra(self, ctx, bdir):
